@@ -1,5 +1,6 @@
 /- Native model driver for engine `ssz` (C08, byte-level SSZ decoders of the validation path).
    op:  <target> <bytes>      target ∈ ssv | qmsg | signed | psig | psigs | spsig
+        encqmsg <type> <height> <round> <id> <root> <dataRound> <rcj> <pj>   (lists: [] or items joined by ',') |
         encssv <type> <id> <data> | encspsig <sigbytes> <signer> <type> <slot> <psig>*   (psig = sig:root:signer)
    <bytes> = chunks joined by '+': lower-case hex, `zN` (N zero bytes) or `-` (empty). -/
 import Ssv.Common.Wire
@@ -41,6 +42,9 @@ def parsePSig (s : String) : Option PSig :=
     pure { partialSignature := sig, signingRoot := root, signer }
   | _ => none
 
+def parseList (s : String) : Option (List (List Nat)) :=
+  if s = "[]" then some [] else (s.splitOn ",").mapM parseBytes
+
 def step (line : String) : String :=
   match words line with
   | ["ssv", b] => match parseBytes b with
@@ -61,6 +65,11 @@ def step (line : String) : String :=
   | ["spsig", b] => match parseBytes b with
       | some bs => render (decodeSPSig bs) fun m => s!"sig={rb m.signature} signer={m.signer} {rPs m.message}"
       | none => "bad-op"
+  | ["encqmsg", t, h, r, i, root, dr, rcj, pj] =>
+      match t.toNat?, h.toNat?, r.toNat?, parseBytes i, parseBytes root, dr.toNat?, parseList rcj, parseList pj with
+      | some tt, some hh, some rr, some ii, some ro, some d, some l6, some l7 =>
+        rb (encodeQMsg { msgType := tt, height := hh, round := rr, identifier := ii, root := ro, dataRound := d, rcj := l6, pj := l7 })
+      | _, _, _, _, _, _, _, _ => "bad-op"
   | ["encssv", t, i, d] => match t.toNat?, parseBytes i, parseBytes d with
       | some tt, some ii, some dd => rb (encodeSSV { msgType := tt, msgID := ii, data := dd })
       | _, _, _ => "bad-op"
